@@ -15,10 +15,10 @@
  O5 (K5+K2) last-commit cross-check compares round, vote count, and per vote address, power and
     sig_info of the zipped votes; every loop iteration takes the equal edge of the address and
     power comparisons (no early `continue` above them); the vote loops run to exhaustion.
- O6 (K4+K2) median geometry (necessary for "published price within the reported range"): the
-    price list is sorted before any element is read; elements are only read at len/2 and
-    len/2-1; halves divide by 2; the rounding +1 is added only when both middle prices are odd.
-Not decided: median within [min, max] as a numeric fact; O6 decides the index/rounding shape only.
+ O6 (K4+K2) range shape of the aggregation: the averaged value is half(x)+half(y) of two reported
+    prices with divisor 2, and the rounding +1 is unreachable unless an oddness test of an
+    averaged price succeeded (both even + 1 can exceed the maximum).
+Not decided: median within [min, max] as a numeric fact; which elements are read (median-ness).
 """
 import re
 
@@ -291,45 +291,31 @@ def o5(prog, rep):
 
 
 def o6(prog, rep):
+    """Range clause only: any element of the list, and half(x)+half(y) of two elements, lie in
+    [min, max]; adding 1 stays in range iff x and y are not both even.  Which elements are read
+    (sortedness, middle indices) affects median-ness, not the range, and is deliberately not judged."""
     import formula
     body = prog.main_body("astria_core::oracles::price_feed::utils::median")
     canon = lambda a: formula.canon(body.root(a).replace("<Some>.0", ""))
-    MID, LOW = "(len(price_list) / 2)", "((len(price_list) / 2) - 1)"
-    sorts = [c for c in body.calls if c.matches(r"slice::<impl \[T\]>::sort(_unstable)?$")
-             and body.root(c.args[0]) == "price_list"]
-    gets = [c for c in body.calls if c.matches(r"slice::<impl \[T\]>::get$")
-            and body.root(c.args[0]) == "price_list"]
-    rep.floor("O6", len(sorts), 1, "sort of the price list")
-    rep.floor("O6", len(gets), 3, "element reads of the price list")
-    for g in gets:
-        rep.check(bool(sorts) and body.dominates(sorts[0].bb, g.bb), "O6", "sorted-before-read",
-                  "a price is read from the list before the list is sorted", g.where())
-        idx = canon(g.args[1])
-        rep.check(idx in (MID, LOW), "O6", "index-is-middle",
-                  f"price list read at `{idx[:80]}`, not at len/2 or len/2-1", g.where(), detail=idx)
-    rep.check({canon(g.args[1]) for g in gets} == {MID, LOW}, "O6", "both-middles-read",
-              "the even-length branch does not read both middle elements", body.describe())
     divs = [c for c in body.calls if c.matches(r"Price::checked_div$")]
     adds = [c for c in body.calls if c.matches(r"Price::checked_add$")]
     rep.floor("O6", len(divs), 2, "halvings")
     rep.floor("O6", len(adds), 2, "additions")
     for d in divs:
         rep.check(body.root(d.args[1]) == "const(2)" and "get(price_list," in body.root(d.args[0]),
-                  "O6", "half-of-middle", "halving does not divide a middle price by 2", d.where())
-    rep.check(len({body.root(d.args[0]) for d in divs}) == len(divs), "O6", "halves-distinct",
-              "the same middle price is halved twice", body.describe())
+                  "O6", "half-of-element", "halving does not divide a reported price by 2", d.where())
     odd = [x for x in comparisons(body) if x.op == "Eq" and x.b == "const(1)"
            and re.search(r"^\(get\(.*get\(price_list,.* Rem const\(2\)\)$", x.a)]
-    rep.floor("O6", len(odd), 2, "oddness tests of the middle prices")
-    rep.check(len({x.a for x in odd}) == len(odd), "O6", "oddness-distinct",
-              "the same middle price is tested for oddness twice", body.describe())
+    rep.floor("O6", len(odd), 1, "oddness tests of the averaged prices")
+    odd_true = set()
+    for x in odd:
+        odd_true |= set(x.true_edges)
     for a in adds:
         ops = [canon(x) for x in a.args]
         if "new(1)" in ops:
-            rep.check(all(body.must_pass_edges(set(x.true_edges), a.bb) for x in odd) and len(odd) >= 2,
-                      "O6", "round-up<=both-odd",
-                      "the rounding +1 is added although not both middle prices are odd", a.where())
+            rep.check(a.bb not in body.reachable(0, removed_edges=odd_true), "O6", "round-up<=some-odd",
+                      "the rounding +1 can be added when both averaged prices are even (result may "
+                      "exceed the largest reported price)", a.where())
         else:
-            rep.check(ops == ["(price_list / 2)", "(price_list / 2)"]
-                      and body.root(a.args[0]) != body.root(a.args[1]), "O6", "sum-of-halves",
-                      f"sum is `{ops}`, expected the two distinct halves", a.where())
+            rep.check(ops == ["(price_list / 2)", "(price_list / 2)"], "O6", "sum-of-two-halves",
+                      f"sum is `{ops}`, expected two halves of reported prices", a.where())
